@@ -31,11 +31,12 @@ func NewSafeValue(val Value, types ...string) SafeValue {
 	for _, k := range types {
 		safeFor[k] = true
 	}
-	if v, ok := val.(SafeValue); ok {
-		for _, k := range v.SafeFor() {
+	if v, ok := val.(SafeValue); ok && !isNilPointer(val) {
+		types, _ := callPromoted(v, "SafeFor", func() Value { return v.SafeFor() }).([]string)
+		for _, k := range types {
 			safeFor[k] = true
 		}
-		return safeValue{safeFor, v.Value()}
+		return safeValue{safeFor, safeInner(v)}
 	}
 	return safeValue{safeFor, val}
 }
@@ -120,7 +121,7 @@ func CoerceBool(v Value) bool {
 	}
 	switch vc := v.(type) {
 	case SafeValue:
-		return CoerceBool(vc.Value())
+		return CoerceBool(safeInner(vc))
 	case bool:
 		return vc
 	case Boolean:
@@ -182,7 +183,7 @@ func CoerceNumber(v Value) float64 {
 	}
 	switch vc := v.(type) {
 	case SafeValue:
-		return CoerceNumber(vc.Value())
+		return CoerceNumber(safeInner(vc))
 	case Number:
 		return callNumber(vc)
 	case uint:
@@ -240,7 +241,7 @@ func CoerceString(v Value) string {
 	}
 	switch vc := v.(type) {
 	case SafeValue:
-		return CoerceString(vc.Value())
+		return CoerceString(safeInner(vc))
 	case string:
 		return vc
 	case Stringer:
@@ -284,6 +285,24 @@ func callPromoted(v Value, name string, call func() Value) (res Value) {
 		}
 	}()
 	return call()
+}
+
+// IsSafe reports whether v is a SafeValue that is safe for the given content
+// type. A value that gets its SafeValue methods from an embedded SafeValue
+// that is nil is not.
+func IsSafe(v Value, typ string) bool {
+	sv, ok := v.(SafeValue)
+	if !ok || isNilPointer(v) {
+		return false
+	}
+	safe, _ := callPromoted(sv, "IsSafe", func() Value { return sv.IsSafe(typ) }).(bool)
+	return safe
+}
+
+// safeInner returns the value stored in v; nil if v gets its methods from an
+// embedded SafeValue that is nil.
+func safeInner(v SafeValue) Value {
+	return callPromoted(v, "Value", func() Value { return v.Value() })
 }
 
 func callString(v Stringer) string {
@@ -493,7 +512,7 @@ func hashable(v reflect.Value) bool {
 // numeric string; anything else cannot be used as an index.
 func indexNumber(attr Value) (float64, bool) {
 	if sv, ok := attr.(SafeValue); ok {
-		attr = sv.Value()
+		attr = safeInner(sv)
 	}
 	if attr == nil {
 		return 0, false
@@ -540,7 +559,7 @@ func isNegative(v reflect.Value) bool {
 // with numeric keys or the string form of a scalar for a map with string keys.
 func mapKey(attr Value, typ reflect.Type) (reflect.Value, bool) {
 	if sv, ok := attr.(SafeValue); ok {
-		attr = sv.Value()
+		attr = safeInner(sv)
 	}
 	if attr == nil {
 		if typ.Kind() == reflect.Interface {
